@@ -16,6 +16,7 @@ enum POp {
     Cast,
     Wrong,
     WrongCall,
+    WrongDerived,
     Call,
     Yield,
     Sleep(u16),
@@ -43,6 +44,7 @@ pub fn scenario_strategy(tier: Tier) -> BoxedStrategy<Scenario> {
         20 => Just(POp::Cast),
         2 => Just(POp::Wrong),
         1 => Just(POp::WrongCall),
+        1 => Just(POp::WrongDerived),
         2 => Just(POp::Call),
         5 => Just(POp::Yield),
         1 => (0u16..3).prop_map(POp::Sleep),
@@ -72,6 +74,7 @@ pub fn scenario_strategy(tier: Tier) -> BoxedStrategy<Scenario> {
                         POp::Cast => Op::Cast { to: 0, seq: k as u32 },
                         POp::Wrong => Op::WrongCast(0),
                         POp::WrongCall => Op::WrongCall(0),
+                        POp::WrongDerived => Op::WrongDerived(0),
                         POp::Call => Op::Call { to: 0, id: (c * 1000 + k) as u32, timeout_ms: Some(20) },
                         POp::Yield => Op::Yield,
                         POp::Sleep(ms) => Op::Sleep(ms),
@@ -140,7 +143,7 @@ pub fn check(sc: &Scenario, ex: &Exec) -> Result<(bool, Vec<String>), Violation>
                             other => return Err(viol("C02/unexpected-call-result", format!("call returned {other:?} at #{pos}"))),
                         }
                     }
-                    Some(Op::WrongCast(0)) | Some(Op::WrongCall(0)) if *res != Res::Skipped => {
+                    Some(Op::WrongCast(0)) | Some(Op::WrongCall(0)) | Some(Op::WrongDerived(0)) if *res != Res::Skipped => {
                         labels.push("wrong-type-send".to_string());
                         if *res != Res::InvalidType {
                             return Err(viol("C02/wrong-type-accepted", format!("a send with the wrong message type returned {res:?} at #{pos}")));
@@ -281,6 +284,6 @@ impl Part for C02 {
         }
     }
     fn rule() -> &'static str {
-        "generated receiver (Send/thread-local/instant) with handler scripts (awaits, self-sends, failures), 2-4 sender clients with numbered streams, wrong-typed sends, calls, optional stop/kill/drain after a generated delay, schedule bytes; oracle = per-message fate model + real-time order over the recorded history; non-trivial = >=2 senders had messages handled and some send completed while a handler was open"
+        "generated receiver (Send/thread-local/instant) with handler scripts (awaits, self-sends, failures), 2-4 sender clients with numbered streams, wrong-typed sends (plain, via call, via a DerivedActorRef taken from a wrongly typed reference), calls, optional stop/kill/drain after a generated delay, schedule bytes; oracle = per-message fate model + real-time order over the recorded history; non-trivial = >=2 senders had messages handled and some send completed while a handler was open"
     }
 }
